@@ -26,6 +26,16 @@ import (
 
 func TestMain(m *testing.M) { lib.Main(m) }
 
+// scale is lib.Scale with the thorough count divided by 5 under ASan (the
+// instrumented reference models are ~10x slower; ASan is there for the unsafe
+// code in internal/sha3, not for volume).  Still a fixed count per (tier, cfg).
+func scale(q, t int) int {
+	if lib.Cfg() == "asan" && t/5 >= q {
+		t /= 5
+	}
+	return lib.Scale(q, t)
+}
+
 func repoDir() string {
 	if v := os.Getenv("VERIF_KAT_REPO"); v != "" {
 		return v
